@@ -694,6 +694,26 @@ def check_purge_first(res, prop, cm, roles, m, top):
                 if not seen_q:
                     ok = True
                 break
+    # the purge (and every deadline written) uses a clock sample of the atomic step itself: in ut_map/ut_set the ttl list is
+    # appended in lock order, so it is deadline-sorted only if clock samples are taken in lock order too, and "size() ==
+    # live keys immediately after the call" needs the purge time to be inside the step, not before a wait for the mutex
+    held = 0
+    early = None
+    for e in top.path.trace:
+        if e[0] == 'lock' and e[1] == roles.lock and e[3] != 'temporary':
+            held += 1
+        elif e[0] == 'unlock' and e[1] == roles.lock and not (len(e) > 3 and e[3] == 'temporary'):
+            held = max(0, held - 1)
+        elif e[0] == 'now' and held == 0 and early is None:
+            early = e
+    if prop != 'C02' and ops.kind_of(m) != 'INSERT':
+        early = None         # a lookup's stale purge time only matters to the size()-right-after-the-call clause (C02)
+    else:
+        res.ob('R-CLOCK-IN-REGION', ok=early is None)
+    if early is not None:
+        V(res, prop, 'R-CLOCK-IN-REGION', cm, m.key(), 'clock sampled outside the critical section', early[2],
+          '%s reads steady_clock before taking m_lock: a thread that waits for the mutex purges (and stamps deadlines) with a '
+          'sample older than entries other threads appended meanwhile' % m.key())
     res.ob('R-PURGE-FIRST', ok=ok)
     if not ok:
         site = q_before[2] if q_before else site_of_seg(top, m)
